@@ -125,7 +125,12 @@ func New() internal.DumpedMachineProvider {
 			// Responses
 			{Name: EventDKGResponseConfirmationReceived, SrcState: []fsm.State{StateDkgResponsesAwaitConfirmations}, DstState: StateDkgResponsesAwaitConfirmations},
 			// Canceled
-			{Name: EventDKGResponseConfirmationError, SrcState: []fsm.State{StateDkgResponsesAwaitConfirmations, StateDkgResponsesAwaitCanceledByError}, DstState: StateDkgResponsesAwaitCanceledByError},
+			// Deals are addressed to single participants, so a node may still be
+			// collecting its deals (and have missed the responses published meanwhile)
+			// when a participant who already has all of his reports a failure of a
+			// later step. The report is not sent again: it cancels the round on a node
+			// that is behind as well.
+			{Name: EventDKGResponseConfirmationError, SrcState: []fsm.State{StateDkgDealsAwaitConfirmations, StateDkgResponsesAwaitConfirmations, StateDkgResponsesAwaitCanceledByError}, DstState: StateDkgResponsesAwaitCanceledByError},
 			{Name: eventDKGResponseConfirmationCancelByTimeoutInternal, SrcState: []fsm.State{StateDkgResponsesAwaitConfirmations}, DstState: StateDkgResponsesAwaitCanceledByTimeout, IsInternal: true},
 
 			{Name: eventAutoDKGValidateResponsesConfirmationInternal, SrcState: []fsm.State{StateDkgResponsesAwaitConfirmations}, DstState: StateDkgResponsesAwaitConfirmations, IsInternal: true, IsAuto: true},
@@ -135,7 +140,7 @@ func New() internal.DumpedMachineProvider {
 			// Master key
 
 			{Name: EventDKGMasterKeyConfirmationReceived, SrcState: []fsm.State{StateDkgMasterKeyAwaitConfirmations}, DstState: StateDkgMasterKeyAwaitConfirmations},
-			{Name: EventDKGMasterKeyConfirmationError, SrcState: []fsm.State{StateDkgMasterKeyAwaitConfirmations, StateDkgMasterKeyAwaitCanceledByError}, DstState: StateDkgMasterKeyAwaitCanceledByError},
+			{Name: EventDKGMasterKeyConfirmationError, SrcState: []fsm.State{StateDkgDealsAwaitConfirmations, StateDkgResponsesAwaitConfirmations, StateDkgMasterKeyAwaitConfirmations, StateDkgMasterKeyAwaitCanceledByError}, DstState: StateDkgMasterKeyAwaitCanceledByError},
 			{Name: eventDKGMasterKeyConfirmationCancelByErrorInternal, SrcState: []fsm.State{StateDkgMasterKeyAwaitConfirmations}, DstState: StateDkgMasterKeyAwaitCanceledByError, IsInternal: true},
 			{Name: eventDKGMasterKeyConfirmationCancelByTimeoutInternal, SrcState: []fsm.State{StateDkgMasterKeyAwaitConfirmations}, DstState: StateDkgMasterKeyAwaitCanceledByTimeout, IsInternal: true},
 
